@@ -42,7 +42,7 @@ class Tree(object):
   def __init__(self, delays):
     self.nodes = {}; self.zxid = 0; self.data_w = {}; self.child_w = {}
     self.q = gevent.queue.Queue(); self.delays = delays; self.nev = 0
-    self.parent_deleted_seen_at = []     # when the client gets to see each deletion of the watched path
+    self.parent_change_seen_at = []      # when the client gets to see each deletion / creation of the watched path
     self.worker = gevent.spawn(self._deliver)
   def _deliver(self):
     # watch events reach the client in order; each one after its own (symbolic) delay
@@ -57,7 +57,7 @@ class Tree(object):
     for w in ws:
       d = self.delays(self.nev); self.nev += 1
       self.q.put((vtime.now() + d, w, WatchedEvent(typ, KazooState.CONNECTED, path)))
-      if table is self.data_w and typ == EventType.DELETED: self.parent_deleted_seen_at.append(vtime.now() + d)
+      if table is self.data_w and path == '/svc': self.parent_change_seen_at.append(vtime.now() + d)
   def create(self, path, data=b''):
     self.zxid += 1; self.nodes[path] = (data, self.zxid)
     parent = path.rsplit('/', 1)[0] or '/'
@@ -141,14 +141,15 @@ def make_body(job):
       if op == 'create': t.create('/svc/' + n, member_blob(NAMES.index(n))); cover('member-created')
       elif op == 'delete': t.delete('/svc/' + n); cover('member-deleted')
       elif op == 'mkparent':
-        # ghost: was the path re-created before the client saw that it had been deleted?
-        if t.parent_deleted_seen_at: aba.append(vtime.now() <= t.parent_deleted_seen_at[-1])
+        # ghost: does the path change again before the client has seen its previous change?
+        if t.parent_change_seen_at: aba.append(vtime.now() <= t.parent_change_seen_at[-1])
         t.create('/svc'); cover('parent-recreated')
       else:
         for c in list(present): t.delete('/svc/' + c)
+        if t.parent_change_seen_at: aba.append(vtime.now() <= t.parent_change_seen_at[-1])
         t.delete('/svc'); cover('parent-deleted')
     gevent.sleep(30)
-    define('recreated_before_deletion_seen', sor(*aba) if aba else False)
+    define('path_changed_again_before_change_seen', sor(*aba) if aba else False)
     if zk.vanished: cover('member-vanished-before-read')
     actual = set(t.children('/svc')) if '/svc' in t.nodes else set()
     check('view-equals-tree-members', set(view.keys()) == actual)
